@@ -6,8 +6,10 @@
 (* fragments, unattached subtrees; elements with namespace and attribute   *)
 (* nodes; text, comment leaves).                                           *)
 (***************************************************************************)
-EXTENDS MCForest, XotSerial
+EXTENDS MCForest, XotSerial, XotTreeL2
 
+\* the iterator transcriptions of XotTreeL2 agree with the document-order definitions on every node
+L2AxesRefine == \A x \in Live(F.n) : L2AxesRefineAt(F.n, x)
 LawsHold == \A x \in Live(F.n) : LawsAt(F.n, x)
 
 \* following and preceding are converse on ordinary nodes
